@@ -12,9 +12,14 @@
     dumpj                → ok <json value of dumps>  | <error>        value tokens: n T F i<int> s<hex> [ … ] { keyhex value … }
     rt                   → ok <view of loads(json image of dumps)>  | <error>
     loads <pyval>        → ok <view of loads(value)> | <error>        value tokens as above plus < … > for tuples
+    print                → ok <hex of the text EntryStored.save writes for the current entry> | <error>
+    printv <pyval>       → ok <hex of json.dumps(value, separators=(',', ':'))>
+    parse <texthex>      → ok <json value of json.loads(text)> | none
+    rttext               → ok <view of loads(json.loads(json.dumps(dumps)))> | <error>
 -/
 import Tranp.Driver.Common
 import Tranp.Model.LarkEntry
+import Tranp.Model.JsonCodec
 
 namespace Tranp.Driver.Entry
 open Tranp Tranp.Lark Tranp.Driver
@@ -145,6 +150,24 @@ def step (st : St) : List String → St × String
       | .ok t' => (st, "ok " ++ showView (view t'))
       | .error e => (st, e.toString)
     | _ => (st, "bad-op")
+  | ["print"] =>
+    match dumps st.t with
+    | .ok d => (st, "ok " ++ Str.hex (printJson (toJson d)))
+    | .error e => (st, e.toString)
+  | ["printv", v] =>
+    match parseVal (v.splitOn " ") with
+    | some (pv, []) => (st, "ok " ++ Str.hex (printJson (toJson pv)))
+    | _ => (st, "bad-op")
+  | ["parse", t] =>
+    match Str.unhex t with
+    | some txt => (st, match parseJson txt with
+      | some j => "ok " ++ showJson j
+      | none => "none")
+    | none => (st, "bad-op")
+  | ["rttext"] =>
+    match storeLoadText st.t with
+    | .ok t' => (st, "ok " ++ showView (view t'))
+    | .error e => (st, e.toString)
   | _ => (st, "bad-op")
 
 def run : IO Unit := runFamily step ({} : St)
